@@ -321,23 +321,71 @@ def r3_sentinel(cx):
 
 
 def r4_order(cx):
+    """the comparator of the memory store's sort (the sort_by closure and the local helpers it calls): with two
+    numbers it must reach a numeric comparison and must not reach a comparison of `Value::to_string()` images"""
     m = cx.m
     pa = Prov(m, "alias")
     f = m.one(r"^<acts::store::db::mem::collect::Collect<T> as acts::store::DbCollection>::query$")
-    closures = [g for g in m.fns.values() if g.q.startswith(f.q + "::{closure")]
-    cmps = []
-    for g in closures:
+    sort = [c for c in f.calls() if re.search(r"::sort_by$|::sort_unstable_by$|::sort_by_key$|::sort_by_cached_key$", c.q)]
+    if len(sort) != 1:
+        raise Anchor("memory query: expected one sort call (found %d)" % len(sort))
+    clos = pa.root(f, sort[0].args[1])
+    if clos[0] != "closure" or clos[1] not in m.fns:
+        raise Anchor("memory query: the sort comparator is not a local closure")
+    comp = [m.fns[clos[1]]]
+    for g in list(comp):
         for c in g.calls():
-            if re.search(r"as std::cmp::Ord>::cmp$", c.q):
-                roots = [pa.root(g, a) for a in c.args]
-                cmps.append((g, c, roots))
-    if not cmps:
-        raise Anchor("memory query: no comparison found in the sort closure")
-    for g, c, roots in cmps:
-        stringly = all(r[0] == "call" and r[1].endswith("ToString>::to_string") and "serde_json::Value" in (Call(g, r[2]).full) for r in roots)
-        cx.ob("C10.R4", "mem:order:%s" % ("string-image"), not stringly,
-              "memory ordering compares typed values (numbers numerically), not `Value::to_string()` images", c.loc,
+            h = m.fns.get(c.q)
+            if h is not None and c.callee.get("local") and h not in comp and len(comp) < 6:
+                comp.append(h)
+    num_v = dict(m.variants("serde_json::Value"))["Number"]
+    stringly = []
+    numeric = []
+    n = 0
+    for g in comp:
+        # blocks reachable when every sort-key value examined is a Number
+        seen = set()
+        work = [0]
+        while work:
+            x = work.pop()
+            if x in seen:
+                continue
+            seen.add(x)
+            t = g.blocks[x]["t"]
+            if t[0] == "switch":
+                r = pa.root(g, t[1])
+                if r[0] == "discr" and r[2] == "serde_json::Value":
+                    tgt = t[3]
+                    for sv, tb in t[2]:
+                        if int(sv) == num_v:
+                            tgt = tb
+                    work.append(tgt)
+                    continue
+            work += g.succ(x)
+        for c in g.calls():
+            if not re.search(r"(Ord|PartialOrd)>::(cmp|partial_cmp)$|impl std::cmp::(Ord|PartialOrd) for .*>::(cmp|partial_cmp)$", c.q):
+                continue
+            if c.b not in seen:
+                continue
+            roots = [pa.root(g, a) for a in c.args]
+            if all(r[0] == "call" and r[1].endswith("ToString>::to_string") and "serde_json::Value" in (Call(g, r[2]).full) for r in roots):
+                stringly.append((g, c, roots))
+            elif re.search(r"for (i64|u64|f64|i128)>::|Option<(f64|i64|u64)> as", c.full):
+                numeric.append((g, c))
+    for i, (g, c, roots) in enumerate(stringly):
+        cx.ob("C10.R4", "mem:order:string-image" + ("" if i == 0 else "#%d" % (i + 1)), False,
+              "memory ordering compares typed values (numbers numerically), not `Value::to_string()` images - this comparison of the text images is reached with two numbers", c.loc,
               operands=[root_str(r) for r in roots])
+    if not stringly:
+        cx.ob("C10.R4", "mem:order:string-image", True, "with two numeric sort keys the comparator of the memory store never compares `Value::to_string()` images", sort[0].loc)
+    cx.ob("C10.R4", "mem:order:numeric", bool(numeric), "with two numeric sort keys the comparator reaches a comparison of numbers (%s)" % ", ".join(sorted({short_name(c.q) for _, c in numeric}) or ["none found"]), sort[0].loc)
+    # both directions use the same comparator with swapped operands
+    g0 = comp[0]
+    helper_calls = [c for c in g0.calls() if m.fns.get(c.q) in comp[1:] and str(m.fns[c.q].local_ty(0)).endswith("cmp::Ordering")]
+    if len(helper_calls) == 2:
+        r0 = [pa.root(g0, a) for a in helper_calls[0].args]
+        r1 = [pa.root(g0, a) for a in helper_calls[1].args]
+        cx.ob("C10.R4", "mem:order:desc-is-swap", r0 == r1[::-1] and r0[0] != r0[1], "descending order is the same comparison with the operands swapped", helper_calls[0].loc)
 
 
 EXPECT_OPS = {"eq": {"EQ"}, "is_null": {"EQ"}, "ne": {"NE"}, "is_not_null": {"NE"}, "lt": {"LT"}, "lte": {"LE"}, "gt": {"GT"}, "gte": {"GE"}}
